@@ -69,6 +69,16 @@ def shortcut_cases():
         out.append((f"near-miss:{vn}:vector-expression-sum", D1, ["sum", ["vbin", "-", v, ["arr", [0.5] * n]]], []))
         out.append((f"near-miss:{vn}:element-in-constraint", D1, ["dot", v, v], [["rel", ">=", ["el", ["vec", "y"], 1], ["raw", 0.0, "float"], "direct"]]))
         out.append((f"near-miss:{vn}:other-view-in-constraint", D1, ["sum", v], [["rel", "<=", ["sum", ["slice", _x, 0, 2, None]], ["raw", 1.0, "float"], "direct"]]))
+    # different views that carry the SAME generated name and size (x[0:4:2] / x[0:4:3] are both "x[0:4]"; A[0,0:2] / A[0,1:3] both "A[0,:]")
+    A_ = ["mat", "A"]
+    for nm, v1, v2 in [
+        ("stepped-slices", ["slice", _x, 0, 4, 2], ["slice", _x, 0, 4, 3]),
+        ("row-slices", ["rows", A_, 0, 0, 2, None], ["rows", A_, 0, 1, 3, None]),
+        ("column-slices", ["cols", A_, 1, 0, 2, None], ["cols", A_, 1, 1, 3, None]),
+        ("offset-slices", ["slice", _x, 1, 5, 2], ["slice", _x, 1, 5, 3]),
+    ]:
+        out.append((f"near-miss:same-name-views:{nm}", D1, ["sum", v1], [["rel", "<=", ["sum", v2], ["raw", 3.0, "float"], "direct"]]))
+        out.append((f"near-miss:same-name-views:{nm}:lc", D1, ["matmul", ["arr", [1.0, 2.0]], v1], [["rel", ">=", ["dot", v2, v2], ["raw", 0.5, "float"], "direct"]]))
     out.append(("shortcut:two-views-same-vector", D1, ["sum", ["slice", _x, 0, 4, None]], [["rel", "<=", ["sum", ["slice", _x, 2, 8, None]], ["raw", 1.0, "float"], "direct"]]))
     out.append(("shortcut:constant-objective", D1, ["const", 1.0, "float"], [["rel", "<=", ["sum", _x], ["raw", 1.0, "float"], "direct"]]))
     out.append(("shortcut:parameter-only-objective", D1 + [{"k": "par", "name": "p", "val": 2.0}], ["bin", "*", ["par", "p"], ["sum", _y]], []))
@@ -81,10 +91,14 @@ NAME_POOL = ["x1", "x2", "x10", "x_2", "x_10", "a", "A0", "b0", "b00", "b1", "10
 def name_stress_case(rng):
     names = rng.sample(NAME_POOL, rng.randint(3, 7))
     decls = [{"k": "var", "name": nm, **({"lb": 0.5 * i} if i % 2 else {}), **({"dom": "integer"} if i % 5 == 4 else {})} for i, nm in enumerate(names)]
-    if rng.random() < 0.5:
-        decls.insert(rng.randrange(len(decls) + 1), {"k": "vec", "name": "x", "n": rng.choice([3, 11, 12]), "ub": 7.0, **({"dom": "binary"} if rng.random() < 0.2 else {})})
+    vnames = []
+    for vn in rng.sample(["x", "f2", "f10", "w9", "w10", "v1w2"], rng.randint(0, 3)):
+        if vn in names:
+            continue
+        vnames.append(vn)
+        decls.insert(rng.randrange(len(decls) + 1), {"k": "vec", "name": vn, "n": rng.choice([2, 3, 11]), "ub": 7.0, **({"dom": "binary"} if rng.random() < 0.2 else {})})
     if rng.random() < 0.4:
-        decls.insert(rng.randrange(len(decls) + 1), {"k": "mat", "name": "A", "r": 2, "c": 11 if rng.random() < 0.3 else 2, "lb": -2.0})
+        decls.insert(rng.randrange(len(decls) + 1), {"k": "mat", "name": rng.choice(["A", "M2", "M10"]), "r": 2, "c": 11 if rng.random() < 0.3 else 2, "lb": -2.0})
     used = rng.sample(names, rng.randint(1, len(names)))
     obj = None
     for nm in used:
@@ -92,10 +106,11 @@ def name_stress_case(rng):
         obj = t if obj is None else ["bin", rng.choice(["+", "-"]), obj, t]
     cons = []
     for d in decls:
-        if d["k"] == "vec" and rng.random() < 0.7:
-            cons.append(["rel", "<=", ["sum", ["vec", "x"]] if rng.random() < 0.5 else ["slice", ["vec", "x"], 1, None, 2], ["raw", 4.0, "float"], "direct"])
+        if d["k"] == "vec" and rng.random() < 0.8:
+            vv = ["vec", d["name"]]
+            cons.append(["rel", "<=", ["sum", vv] if rng.random() < 0.5 else ["slice", vv, 1, None, 2], ["raw", 4.0, "float"], "direct"])
         if d["k"] == "mat" and rng.random() < 0.7:
-            cons.append(["rel", ">=", ["row", ["mat", "A"], 1], ["raw", 0.0, "float"], "direct"])
+            cons.append(["rel", ">=", ["row", ["mat", d["name"]], 1], ["raw", 0.0, "float"], "direct"])
     rest = [nm for nm in names if nm not in used]
     if rest and rng.random() < 0.6:
         cons.append(["rel", "<=", ["bin", "+", ["var", rest[0]], ["var", used[0]]], ["raw", 5.0, "float"], "reflected"])
